@@ -42,7 +42,7 @@ def expand(spec):
         # the leftmost of n sibling tasks runs first, with the other n-1 already on the scheduler's stack, and calls
         # synchronously into asynq
         inner = _task(n + 1, [_y(["item", "a", 1, "ok", 0])])
-        first = _task(1, [{"op": "sync", "task": inner, "how": "call", "catch": False}, _y(["item", "a", 2, "ok", 1])])
+        first = _task(1, [{"op": "sync", "task": inner, "how": "call", "catch": False}] + ([_y(["item", "a", 2, "ok", 1])] if spec.get("tail", True) else []))
         kids = [["task", first]] + [["task", _task(i + 2, [])] for i in range(n - 1)]
         prog["root"] = _task(0, [_y(["L", kids])])
     elif shape == "many-contexts":
@@ -50,7 +50,7 @@ def expand(spec):
         inner = [{"op": "read", "sv": 0}, _y(["item", "a", 1, "ok", 0]), {"op": "read", "sv": 0}]
         body = inner
         for i in range(n):
-            body = [{"op": "with", "ctx": ["ov", 0, ["ov", n - i]], "body": body}]
+            body = [{"op": "with", "ctx": ["rec", n - i] if spec.get("ctx") == "rec" else ["ov", 0, ["ov", n - i]], "body": body}]
         holder = _task(1, body + [{"op": "read", "sv": 0}])
         reader = _task(2, [{"op": "read", "sv": 0}, _y(["item", "b", 1, "ok", 1]), {"op": "read", "sv": 0}, _y(["item", "a", 2, "ok", 2]), {"op": "read", "sv": 0}])
         prog["root"] = _task(0, [_y(["L", [["task", holder], ["task", reader]]]), {"op": "read", "sv": 0}])
@@ -78,6 +78,9 @@ def specs(shapes, quick):
             elif sh == "fan-tasks":
                 out.append({"shape": sh, "n": n, "agg": "L"})
                 out.append({"shape": sh, "n": n, "agg": "T"})
+            elif sh == "fan-sync-first":
+                out.append({"shape": sh, "n": n, "tail": True})
+                out.append({"shape": sh, "n": n, "tail": False})
             else:
                 out.append({"shape": sh, "n": n})
     return out
